@@ -136,15 +136,25 @@ def run(ctx):
     # the step charges 0: the value flowing to `cost +=` from this arm is the literal 0
     zero = False
     b = join
-    for _ in range(12):
+    for _ in range(24):
         if b is None or zero:
             break
         for st in rp.stmts(b):
-            if "rv" in st and "use" in st["rv"] and "c" in st["rv"]["use"] and st["rv"]["use"]["c"].get("val") == 0 \
-                    and st["rv"]["use"]["c"].get("ty") == "u64":
+            rv_ = st.get("rv", {})
+            if "use" in rv_ and "c" in rv_["use"] and rv_["use"]["c"].get("val") == 0 and rv_["use"]["c"].get("ty") == "u64":
+                zero = True
+            # ... or `Ok(0)` that a `?` unwraps (the arm's work moved into a helper returning Result<Cost>)
+            if "agg" in rv_ and isinstance(rv_["agg"][0], dict) and rv_["agg"][0].get("variant") == "Ok" and rv_["agg"][1] \
+                    and "c" in rv_["agg"][1][0] and rv_["agg"][1][0]["c"].get("val") == 0 and rv_["agg"][1][0]["c"].get("ty") == "u64":
                 zero = True
         nxt = rp.succ_blocks(b)
-        b = nxt[0] if len(nxt) == 1 else None
+        if len(nxt) == 1:
+            b = nxt[0]
+        else:
+            # the success arm of a `?`
+            dv = rp.discr_variants(b) or {}
+            cont = [tgt for tgt, v in rp.succ(b) if dv.get(v) == "Continue"]
+            b = cont[0] if len(cont) == 1 else None
     ck.ob("R04c", RP + "run_program|cost", zero, "the RestoreAllocator step contributes 0 to the cost", site=rp.where(join) if join else None)
 
     # ---- R04d
